@@ -49,6 +49,12 @@ def one(name):
         if rc == 1 and 'VIOLATION property=%s' % pid in out:
             return name, pid, 'caught'
         if rc == 0:
+            # does the change still break anything on this HEAD?  (a later
+            # repair may have neutralised it)
+            demo = os.path.join(d, 'demo.py')
+            rcd, _ = sh('timeout 300 /venv/bin/python %s' % demo, cwd=wt)
+            if rcd == 0:
+                return name, pid, 'neutralised (its demo passes on HEAD + patch)'
             return name, pid, 'MISSED'
         return name, pid, 'exit %d: %s' % (rc, out[-300:])
     finally:
@@ -64,7 +70,7 @@ def main(argv):
     with ThreadPoolExecutor(3) as ex:
         for name, pid, verdict in ex.map(one, names):
             print('%-55s %s %s' % (name, pid, verdict), flush=True)
-            if verdict != 'caught' and not verdict.startswith('stale'):
+            if verdict != 'caught' and not verdict.startswith(('stale', 'neutralised')):
                 bad += 1
     sh('git -C %s worktree prune' % REPO)
     # found/ files written by these runs belong to the scratch copies
